@@ -30,7 +30,7 @@ for pid in ALL:
         "thorough_cmd": "./check %s thorough" % pid,
         "evidence_file": "/verif/evidence/%s.json" % pid,
         "replay_cmd_template": "./check %s --replay {path}" % pid,
-        "engine": ns.get("ENGINE", "hypothesis"),
+        "engine": {"C08": "libfuzzer+hypothesis", "C06": "hypothesis+tsan-harness"}.get(pid, ns.get("ENGINE", "hypothesis")),
         "level_claimed": {"category": ns.get("LEVEL", "exploration"),
                           "text": ns.get("LEVEL_TEXT", "Generated-input search against an explicit oracle; reports what was explored, never absence."),
                           "design_ref": ns.get("DESIGN_REF", "DESIGN.md section 5, " + pid)},
@@ -45,10 +45,12 @@ m = {
               "baseline_off_cmd": "cmake --build /repo/_build -j16 && ctest --test-dir /repo/_build --timeout 900",
               "source_commits": [], "add_only": True},
     "engines": [
-        {"name": "hypothesis", "path": "vp/core.py", "serves_properties": [c["property_id"] for c in checks if c["engine"] == "hypothesis"],
+        {"name": "hypothesis", "path": "vp/core.py", "serves_properties": [c["property_id"] for c in checks if "hypothesis" in c["engine"]],
          "kind_free_text": "Hypothesis 6.168 (python3-vt), sharded over processes, seeded from VERIF_SEED; cases journalled and replayed without Hypothesis"},
-        {"name": "libfuzzer", "path": "shim/fuzz_run.cpp", "serves_properties": [c["property_id"] for c in checks if c["engine"] == "libfuzzer+hypothesis"],
-         "kind_free_text": "clang libFuzzer + ASan + UBSan targets with the semantic oracle inside the target"},
+        {"name": "libfuzzer", "path": "shim/fuzz_run.cpp", "serves_properties": [c["property_id"] for c in checks if "libfuzzer" in c["engine"]],
+         "kind_free_text": "clang libFuzzer + ASan + UBSan targets (fuzz_run, fuzz_db) and the sanitizer-built scripted runner apirunner_asan, semantic oracle inside the target (shim/fuzz_common.h)"},
+        {"name": "tsan-harness", "path": "shim/mt_harness.cpp", "serves_properties": [c["property_id"] for c in checks if "tsan" in c["engine"]],
+         "kind_free_text": "C++ thread harness executing Hypothesis-generated schedules under ThreadSanitizer (mt_tsan) and natively (mt_rel)"},
     ],
     "checks": checks,
     "not_applicable": na,
